@@ -36,6 +36,15 @@ A call may report failure (NULL) only if an allocation was refused inside it;
 every value that is produced - by the call that saw the failure (the start-up
 self-test absorbs one) and by every later call, with every key - must equal
 refaes, and nothing may crash.
+
+Faulty-hardware environment (`hw-faulty256` / `hw-faulty128`): the AES-NI build
+started with --faulty-aesni=32 / 16, where the interposed
+crypto_aes_key_expand_aesni delivers one wrong round-key bit for EVERY key of
+that size (a CPU or emulator whose AES instructions misbehave for one key
+size).  The library's start-up self-test has one vector per key size and is
+what keeps the statement true there (it warns and falls back to OpenSSL); a
+sample of block, stream and re-initialisation cases is judged against refaes
+exactly as in the other builds.
 """
 import hashlib
 import os
@@ -828,7 +837,9 @@ def run_cases(exes, cases, so_every, timeout=900):
     res = {'evals': 0, 'sigs': set(), 'alarms': [], 'stats': {}, 'intr': {}, 'harness': [],
            'samples': []}
     answered = []
-    for bname, exe in exes:
+    for ent in exes:
+        bname, exe = ent[:2]
+        xargs = ent[2] if len(ent) > 2 else ()
         answers = {}
         answered.append(answers)
 
@@ -843,7 +854,7 @@ def run_cases(exes, cases, so_every, timeout=900):
             d['sig'] = sig(bname, c['sig'])
             d['meta'] = dict(c.get('meta', {}), build=bname)
             mine.append(d)
-        r = core.line_shard(exe, mine, judge=j, timeout=timeout)
+        r = core.line_shard(exe, mine, judge=j, timeout=timeout, args=xargs)
         res['evals'] += r['evals']
         res['sigs'] |= r['sigs']
         res['alarms'] += r['alarms']
@@ -884,6 +895,34 @@ def _long(a):
                             case], 1, timeout=3000)
 
 
+def faulty_name(klen):
+    return 'hw-faulty%d' % (8 * klen)
+
+
+def faulty_args(bname):
+    return ['--faulty-aesni=%d' % (int(bname[len('hw-faulty'):]) // 8)]
+
+
+def _faulty(a):
+    """A sample of the ordinary cases in the environment where AES-NI key
+    expansion is wrong for every key of `klen` bytes."""
+    exe, seed, klen = a
+    rnd = random.Random(seed ^ (0xFA17 + klen))
+    intr = {'kind': 'intr', 'line': 'I', 'expect': '', 'sig': 0, 'nt': False}
+    cases = [intr]
+    for k, p, c in FIPS_BLOCKS:
+        cases.append({'kind': 'block', 'line': 'B %s %s 0 0' % (k, p), 'expect': c,
+                      'sig': sig('Bfips', len(k)), 'nt': True, 'meta': {'key': k, 'blocks': p}})
+    for _ in range(60):
+        cases.append(block_case(rnd))
+    for _ in range(12):
+        cases += stream_group(rnd)
+    for _ in range(10):
+        cases.append(reinit_case(rnd))
+    cases.append(intr)          # answered last: how many damaged keys were delivered
+    return run_cases([(faulty_name(klen), exe, ['--faulty-aesni=%d' % klen])], cases, 0)
+
+
 def build(ctx):
     exes = []
     for bname, cpu in BUILDS:
@@ -893,7 +932,9 @@ def build(ctx):
                                                 'common/wrapalloc.c',
                                                 'common/aes_oomhist.c'], objs, cpu=cpu,
                                                wraps=['malloc', 'calloc', 'realloc', 'free',
-                                                      'strdup'],
+                                                      'strdup'] +
+                                               (['crypto_aes_key_expand_aesni']
+                                                if bname == 'hw' else []),
                                                defs=['VH_WRAPALLOC'])))
     return exes
 
@@ -906,6 +947,9 @@ def run(ctx):
     # one pool for everything: the long streams run beside the shards
     # (each long case runs on both builds; split per build for balance)
     ooms = [('O', (b, e, spec, ctx.seed)) for b, e in exes for spec in OOM_SPECS]
+    have_aes = 'aes' in host_flags()
+    if have_aes:
+        ooms += [('X', (dict(exes)['hw'], ctx.seed, klen)) for klen in (32, 16)]
     tasks = [('L', ([e], c)) for c in longs for e in exes] + ooms + \
             [('S', (exes, seeds[i], ctx.tier, i, n)) for i in range(n)]
     res = core.pmap(_task, tasks)
@@ -941,7 +985,11 @@ def run(ctx):
         for b, a in r['intr'].items():
             intr.setdefault(b, set()).add(a)
     ctx.cov['crypto_aes_can_use_intrinsics'] = {b: sorted(v) for b, v in intr.items()}
-    have_aes = 'aes' in host_flags()
+    for klen in (32, 16) if have_aes else ():
+        got = intr.get(faulty_name(klen), set())
+        if not got or any(g.endswith('faults=0') or 'faults=' not in g for g in got):
+            ctx.note_inconclusive('%s: no damaged AES-NI key was ever delivered (%r)'
+                                  % (faulty_name(klen), sorted(got)))
     if intr.get('sw') != {'intr=0'}:
         ctx.note_inconclusive('software build did not report the software path: %r' % intr.get('sw'))
     if have_aes and intr.get('hw') != {'intr=1'}:
@@ -999,7 +1047,12 @@ def run(ctx):
         'FRESH process per k = 1..N runs the history with exactly the k-th attempt failing once; '
         'a call may report failure (NULL) only if an allocation was refused inside it, every '
         'value produced by that call and by all later calls with every key must equal refaes, '
-        'no sanitizer report, no crash.  non-trivial = block case, or stream with >= 2 calls that straddles a block '
+        'no sanitizer report, no crash.  Faulty-hardware environment: the AES-NI build started with '
+        '--faulty-aesni=32 and =16 (builds hw-faulty256 / hw-faulty128: the interposed '
+        'crypto_aes_key_expand_aesni damages one round-key bit of EVERY key of that size) answers 3 '
+        'FIPS blocks, 60 block cases, 12 streams x (3 partitions + buf) and 10 re-initialised '
+        'objects, judged against refaes like every other case; crypto_aes_can_use_intrinsics shows '
+        'what the library selected there.  non-trivial = block case, or stream with >= 2 calls that straddles a block '
         'boundary or has >= 32 bytes; distinct = distinct (build, key size, flags, length, '
         'partition shape; far-offset: boundary exponent, d, crossing kind, flags, number of calls; '
         'allocation-failure history: build, history, k >= 1)')
@@ -1019,7 +1072,8 @@ def run(ctx):
 
 
 def _task(t):
-    return _long(t[1]) if t[0] == 'L' else run_oom(t[1]) if t[0] == 'O' else _shard(t[1])
+    return _long(t[1]) if t[0] == 'L' else run_oom(t[1]) if t[0] == 'O' else \
+        _faulty(t[1]) if t[0] == 'X' else _shard(t[1])
 
 
 def replay(ctx, case):
@@ -1036,5 +1090,6 @@ def replay(ctx, case):
     c.setdefault('expect', '')
     c['sig'] = 0
     c['nt'] = True
-    r = run_cases([(b, exes[b])], [c], 0, timeout=3000)
+    ent = (b, exes['hw'], faulty_args(b)) if b.startswith('hw-faulty') else (b, exes[b])
+    r = run_cases([ent], [c], 0, timeout=3000)
     core.merge(ctx, [r])
